@@ -2,8 +2,10 @@ pub mod c02;
 pub mod c04;
 pub mod c05;
 pub mod c06;
+pub mod c07;
+pub mod c09;
 pub mod c15;
 pub mod c19;
 pub mod c20;
 
-pub const ALL: &[&str] = &["C02", "C04", "C05", "C06", "C15", "C19", "C20"];
+pub const ALL: &[&str] = &["C02", "C04", "C05", "C06", "C07", "C09", "C15", "C19", "C20"];
